@@ -22,6 +22,14 @@
 //     (std::thread::scope, barrier start, seeded yields between scans, inside callbacks and inside
 //     FragmentedMemory::fetch); again: the sequential oracle after the threads have finished.
 //     -> {"oracle":[..], "par":[..], "again":[..]}
+//
+// {"kind":"seq", "rules":[..], "csymbols":[..]?, "params":{..}?, "inputs":[hex | {"xs":seed,"prefix":hex,"body":n,
+//   "alphabet":hex,"mid":hex,"tail":k,"end":hex}..], "order":[index of input..]}
+//     fresh: every input on a scanner compiled for that scan alone (the reference); seq: the inputs in `order` on
+//     ONE scanner; clone_before: a clone made before the sequence scans every input afterwards, on another thread;
+//     clone_after: a clone made after the sequence; last: the scanner again, every input, reverse order.  Full
+//     results (match details included).
+//     -> {"fresh":[..], "seq":[{"input":i,"res":..}..], "clone_before":[..], "clone_after":[..], "last":[..]}
 use std::sync::{Arc, Barrier, Mutex};
 
 use boreal::compiler::CompilerBuilder;
@@ -46,6 +54,7 @@ fn run(case: &Value) -> Value {
         Some("hist") => hist(case),
         Some("hash") => hash(case),
         Some("conc") => conc(case),
+        Some("seq") => seq(case),
         _ => json!({"error": "unknown kind"}),
     }
 }
@@ -477,6 +486,73 @@ fn scan_frag(sc: &Scanner, mem: Pieces<'_>) -> Result<Vec<Value>, (String, Vec<V
     }
 }
 
+// ------------------------------------------------------------------------------------------------ sequences
+fn seq_input(v: &Value) -> Vec<u8> {
+    if let Some(h) = v.as_str() {
+        return unhex(h);
+    }
+    // pseudo-random body over an alphabet between fixed parts (keeps big inputs out of the case files)
+    let mut rng = Rng(v["xs"].as_u64().expect("xs"));
+    let alphabet = get_bytes(v, "alphabet");
+    let pick = |rng: &mut Rng| alphabet[(rng.next() >> 20) as usize % alphabet.len()];
+    let mut out = get_bytes(v, "prefix");
+    for _ in 0..get_usize(v, "body") {
+        out.push(pick(&mut rng));
+    }
+    out.extend(get_bytes(v, "mid"));
+    for _ in 0..get_usize(v, "tail") {
+        out.push(pick(&mut rng));
+    }
+    out.extend(get_bytes(v, "end"));
+    out
+}
+
+fn full_scan(sc: &Scanner, input: &[u8]) -> Value {
+    match std::panic::catch_unwind(std::panic::AssertUnwindSafe(|| {
+        let (err, r) = match sc.scan_mem(input) {
+            Ok(r) => (None, r),
+            Err((e, r)) => (Some(error_name(&e)), r),
+        };
+        json!({"error": err, "rules": r.rules.iter().map(rule_json).collect::<Vec<_>>()})
+    })) {
+        Ok(v) => v,
+        Err(e) => json!({"panic": bvh::panic_message(&*e)}),
+    }
+}
+
+fn seq(case: &Value) -> Value {
+    let sink: Sink = Arc::new(Mutex::new(Vec::new()));
+    let build = || -> Result<Scanner, String> {
+        let mut s = compile(case, &sink)?;
+        if case["params"].is_object() {
+            s.set_scan_params(build_params(&case["params"]));
+        }
+        Ok(s)
+    };
+    let inputs: Vec<Vec<u8>> = case["inputs"].as_array().expect("inputs").iter().map(seq_input).collect();
+    let mut fresh = Vec::new();
+    for input in &inputs {
+        match build() {
+            Ok(s) => fresh.push(full_scan(&s, input)),
+            Err(e) => return json!({"compile_error": e}),
+        }
+    }
+    let scanner = build().unwrap();
+    let before = scanner.clone();
+    let order: Vec<usize> = case["order"].as_array().expect("order").iter().map(|v| v.as_u64().unwrap() as usize).collect();
+    let seq: Vec<Value> = order.iter().map(|&i| json!({"input": i, "res": full_scan(&scanner, &inputs[i])})).collect();
+    let clone_before: Vec<Value> = std::thread::scope(|sc| {
+        let inputs = &inputs;
+        let before = &before;
+        sc.spawn(move || inputs.iter().map(|i| full_scan(before, i)).collect()).join().unwrap()
+    });
+    let after = scanner.clone();
+    let clone_after: Vec<Value> = inputs.iter().map(|i| full_scan(&after, i)).collect();
+    let mut last: Vec<Value> = inputs.iter().rev().map(|i| full_scan(&scanner, i)).collect();
+    last.reverse();
+    json!({"fresh": fresh, "seq": seq, "clone_before": clone_before, "clone_after": clone_after, "last": last})
+}
+
 fn conc(case: &Value) -> Value {
     let sink: Sink = Arc::new(Mutex::new(Vec::new()));
     let mut scanner = match compile(case, &sink) {
@@ -506,7 +582,11 @@ fn conc(case: &Value) -> Value {
             })
             .collect()
     };
-    let oracle = sequential(&scanner);
+    // the oracle runs on a scanner of its own, compiled separately: what the threads do to the shared one
+    // (and to its clones) cannot reach it; `again` is the shared scanner after the threads
+    let mut oracle_scanner = compile(case, &sink).expect("second compilation");
+    configure(&mut oracle_scanner, &case["base_params"], &case["base_symbols"]);
+    let oracle = sequential(&oracle_scanner);
 
     // threads
     let results: Mutex<Vec<Vec<Value>>> = Mutex::new(vec![Vec::new(); jobs.len()]);
